@@ -477,6 +477,32 @@ class Interp:
         finally:
             sys.modules.pop(name, None)
 
+    def op_hookmod(self, op, path):
+        """install_import_hook(name, checker) + first import of a fresh copy of the module + uninstall; the module object is
+        kept for later hookcall operations (C19: a hooked module must follow the switch at CALL time)."""
+        import importlib
+        import sys
+
+        name = op["module"]
+        sys.modules.pop(name, None)
+        try:
+            with jaxtyping.install_import_hook(name, op.get("checker")):
+                self.run.vars["mod:" + name] = importlib.import_module(name)
+            return "imported"
+        except BaseException as e:
+            return exc_outcome(e)
+        finally:
+            sys.modules.pop(name, None)
+
+    def op_hookcall(self, op, path):
+        m = self.run.vars.get("mod:" + op["module"])
+        if m is None:
+            return "nomodule"
+        try:
+            return {"ret": m.f(np.zeros((4 if op.get("bad") else 3,), "float32"))}
+        except BaseException as e:
+            return exc_outcome(e)
+
     def op_mark_ntc(self, op, path):
         """typing.no_type_check applied to an already decorated (and possibly already called) callable."""
         try:
